@@ -1036,9 +1036,15 @@ func (x *c03Run) agreement(ctx string, fresh bool) {
 		ea, erra := x.a.Store.GetUtxo(&id)
 		eb, errb := x.b.Store.GetUtxo(&id)
 		ua, ub := erra == nil && !ea.Spent, errb == nil && !eb.Spent
-		if ua != ub || (ua && (ea.Type != eb.Type || ea.BlockHeight != eb.BlockHeight)) {
-			o := w.Tree.AllOutputs[id]
-			r.Violate("ledgers-differ-under-one-hash", o.Kind.String(), "%s: nodes A and B report the same best block %s, but a %s output created at height %d is unspent on A=%v, on B=%v", ctx, w.name(ba), o.Kind, o.Height, ua, ub)
+		o := w.Tree.AllOutputs[id]
+		// the recorded creation height is a spending constraint for coinbase and vote outputs only
+		// (maturity, vote lock); for ordinary outputs it is bookkeeping that may depend on history
+		if ua != ub || (ua && (ea.Type != eb.Type || (o.Kind != model.Normal && ea.BlockHeight != eb.BlockHeight))) {
+			detail := ""
+			if ua && ub {
+				detail = fmt.Sprintf(" (stored type %d / height %d on A, type %d / height %d on B)", ea.Type, ea.BlockHeight, eb.Type, eb.BlockHeight)
+			}
+			r.Violate("ledgers-differ-under-one-hash", o.Kind.String(), "%s: nodes A and B report the same best block %s, but a %s output created at height %d is unspent on A=%v, on B=%v%s", ctx, w.name(ba), o.Kind, o.Height, ua, ub, detail)
 			return
 		}
 	}
@@ -1249,7 +1255,7 @@ func SpecC03() simkit.Spec {
 	comps["network / netsync reactors"] = "wire seam real (messages.NewTransactionMessage / NewBlockMessage / NewMinedBlockMessage, consensusmgr.NewBlockProposeMsg, go-wire framing, the reactors' decodeMessage through the verif hook, Get*()); transport, peers and gossip policy are a stub: the harness hands the decoded value to Chain.ProcessBlock / ValidateTx as the reactors do"
 	return simkit.Spec{
 		Prop: "C03", Gen: genC03, NewPlan: func() any { return &C03Plan{} }, Exec: execC03,
-		Rule: "a block tree with pay/vote/veto/retire/issue/chained transactions is built by real proposers; node A receives every transaction and block unchanged; every message to node B crosses the real wire encoding and a Byzantine relay that, for drawn messages, decodes, changes exactly one catalogue field (transaction: version, time range, each spend/veto commitment field, issuance nonce/amount/definition/program, coinbase data, each output asset/amount/program/state/vote key/type, input order, output order; witness-only: arguments; block: version, height, previous hash, timestamp, merkle root, one transaction replaced with and without a recomputed root; witness-only: block signature, verification links, a transaction's arguments), re-encodes and forwards before or after the original; transactions go to B's mempool and at drawn steps a proposer sharing B's state and mempool builds the block. Oracles: the id/hash B computes after its own decode differs from the original's for consensus changes and equals it for witness-only changes; a copy with a garbage or missing block signature or a foreign body is refused when B lacks the honest block and never replaces it; whenever A and B report the same best hash every main-chain block read back from each store has identical catalogue content and the unspent status/type/height of every output ever created agree. Non-trivial = at least one changed message crossed and at least one agreement check ran; distinct = hash of the trace",
+		Rule: "a block tree with pay/vote/veto/retire/issue/chained transactions is built by real proposers; node A receives every transaction and block unchanged; every message to node B crosses the real wire encoding and a Byzantine relay that, for drawn messages, decodes, changes exactly one catalogue field (transaction: version, time range, each spend/veto commitment field, issuance nonce/amount/definition/program, coinbase data, each output asset/amount/program/state/vote key/type, input order, output order; witness-only: arguments; block: version, height, previous hash, timestamp, merkle root, one transaction replaced with and without a recomputed root; witness-only: block signature, verification links, a transaction's arguments), re-encodes and forwards before or after the original; transactions go to B's mempool and at drawn steps a proposer sharing B's state and mempool builds the block. Oracles: the id/hash B computes after its own decode differs from the original's for consensus changes and equals it for witness-only changes; a copy with a garbage or missing block signature or a foreign body is refused when B lacks the honest block and never replaces it; whenever A and B report the same best hash every main-chain block read back from each store has identical catalogue content and the unspent status and type of every output ever created (and the recorded creation height of coinbase and vote outputs) agree. Non-trivial = at least one changed message crossed and at least one agreement check ran; distinct = hash of the trace",
 		Components:  comps,
 		FaultKinds:  faults,
 		Probes:      []string{"probe.agreement_checked", "probe.twin_refused", "probe.twin_after_original", "probe.bside_proposals", "probe.bside_reproduced_same_hash", "probe.mutated_tx_pooled_by_B", "probe.mutated_block_stored_by_B", "mutation.not_applicable"},
